@@ -80,7 +80,52 @@ def run(tier, seed, replay=None):
         nev += tc.report(chk, "C08", validated)
         for s, ev, rc, depth, tags, res in validated[:2]:
             chk.sample({"scenario": s["name"], "script": s["script"], "events": len(ev), "final_ids": [c["id"] for c in ev[-2]["cells"]] if len(ev) > 2 and "cells" in ev[-2] else None})
-    chk.cov["evaluations"] = nev
+    # ---- the phase that writes face-type indices from the couplings: spec/Tissue/Polarisation (decision of
+    # special_polarization_update for both coupling models; TLC: index in range, only apical / lateral written, a face coupled corner
+    # by corner to one triangle of one neighbour is lateral, a face with a free corner is not lateralised) replayed into the real function
+    npol = 0
+    if not replay:
+        rnd = random.Random(seed)
+        for m, variant in ((1, "m1d0"), (2, "m2d0")):
+            dump = os.path.join(work, "pol%d" % m)
+            res = vlib.tlc(tc.SPEC, "Polarisation", "Polarisation_m%d.cfg" % m, dump=dump, timeout=1500, xmx="8g")
+            chk.add_tlc("Tissue/Polarisation_m%d.cfg" % m, res)
+            if res.is_violation:
+                chk.violation("design:Polarisation:%d:%s" % (m, ",".join(res.violated)), "TLC: spec/Tissue/Polarisation (model %d) violates %s" % (m, res.violated))
+                continue
+            vlib.tlc_expect_ok(res, "Polarisation")
+            sts = list(vlib.parse_dump(dump + ".dump"))
+            if tier == "quick":
+                sts = rnd.sample(sts, 4000)
+            pcases = []
+            for st in sts:
+                f = st["face"]
+                corners = [f[i] for i in (1, 2, 3)] if isinstance(f, dict) else list(f)
+                pcases.append({"k": len(pcases) + 1, "prev": st["prev"], "nodes": [{"cpl": [list(a) for a in sorted(x["cpl"])], "agree": x["agree"]} for x in corners]})
+            bdir = vlib.build(variant, ["polar_driver"])
+            cp, op = os.path.join(work, "polc%d.ndjson" % m), os.path.join(work, "polo%d.ndjson" % m)
+            vlib.write_ndjson(cp, pcases)
+            rc, out = vlib.run([os.path.join(bdir, "polar_driver"), cp, op], timeout=1800)
+            rows = vlib.read_ndjson(op) if os.path.exists(op) else []
+            if rc != 0 or len(rows) != len(pcases):
+                chk.violation("crash:polarisation:%d" % m, "special_polarization_update (contact model %d) crashed on %s" % (m, json.dumps(pcases[len(rows)] if len(rows) < len(pcases) else None)), {"model": m})
+                continue
+            n, bad = vlib.tlc_validate_records(tc.SPEC, "PolarTrace", "PolarTrace_m%d.cfg" % m, rows, chunk=2000, par=4, workers=2)
+            chk.cov["states"] += n
+            chk.cov["transitions"] += n
+            npol += n
+            for inv, idxs in sorted(bad.items()):
+                for i in idxs[:50]:
+                    chk.violation("impl:polarisation:%d:%s:%s" % (m, inv, json.dumps(pcases[i]["nodes"]) + str(pcases[i]["prev"])),
+                                  "special_polarization_update (contact model %d) on a face with corner couplings %s, previous type %d: type %d written; violates %s" % (
+                                      m, json.dumps(pcases[i]["nodes"]), pcases[i]["prev"], rows[i]["out"], inv), {"polar_case": pcases[i], "model": m})
+            if m == 1:
+                c1 = json.loads(json.dumps(rows[0])); c1["out"] = 2 if c1["out"] != 2 else 1
+                _, cb = vlib.tlc_validate_records(tc.SPEC, "PolarTrace", "PolarTrace_m1.cfg", [c1], chunk=5, par=1, workers=1)
+                if 0 not in cb.get("P_Decision", []):
+                    raise ModelError("polarisation control not rejected")
+        chk.cov["polarisation_decisions_replayed"] = npol
+    chk.cov["evaluations"] = nev + npol
     chk.cov["distinct_nontrivial"] = len(scns) * len(variants)
     chk.cov["rule"] = ("one trace per scripted history (which cell divides / vanishes at which iteration and list position, spacing, threads, "
                        "contact model); one event per phase boundary; non-trivial = history with at least one division or removal")
